@@ -115,7 +115,7 @@ def o03_1(tier):
             if not adim:
                 ctx.ensure(ctx.close(sum((a * xv for a, xv in zip(A[rows][1:], x[1:])), A[rows][0] * x[0]), bb[rows]), "the sum row holds: mean one")
         return h
-    out = [(f"{s},k=1,adimensional={a}", mk(s, 1, a)) for s in ("tri_star", "double_y") for a in (False, True) if not (s == "double_y" and a and tier == "quick")]
+    out = [(f"{s},k=1,adimensional={a}", mk(s, 1, a)) for s in ("tri_star", "double_y") for a in (False, True) if not (s == "double_y" and a)]
     if tier != "quick":
         out += [(f"{s},k=1,adimensional=False", mk(s, 1, False)) for s in ("four_fold", "tri_star~v2", "double_y~v1")]
     return out
